@@ -232,6 +232,27 @@ def find_guard(lf, conj, loops, allowed, swallowed):
         if f_implies(lhs, conj):
             return g, None
         near = (g, "residual")
+    # the same rule stated about the whole document: ALL[loops] conj must follow from some guard in
+    # its own closed form (a guard written as `all(...)`, or a validation helper whose result is
+    # tested once, has no loops of its own)
+    from .loaderfacts import closed
+    from sa.canon import deep_atoms
+    want = closed(conj, loops)
+    wa = deep_atoms(want)
+    for g in lf.guards:
+        if g in swallowed or g.loops == loops:
+            continue
+        res = lf.residual_formula(g)
+        passes = f_or([f_not(res), g.F]) if res != ("true",) else g.F
+        lhs = closed(passes, g.loops)
+        if allowed is not None:
+            if loops:
+                continue          # presence conditions inside loops: only the direct form
+            lhs = f_and([allowed, lhs])
+        if not (wa & deep_atoms(lhs)):
+            continue
+        if f_implies(lhs, want):
+            return g, None
     return None, near
 
 
@@ -253,6 +274,8 @@ def run(ctx, chk):
                "rejections", ev.loc)
     S, consts = schemata(lf)
     n = 0
+    from sa.report import opaque_reason
+    opaque_guards = [g for g in lf.guards if opaque_reason(f_show(g.F))]
     for sid, title, loops, conjs, allowed in S:
         for c in conjs:
             alts = c[1] if c[0] == "alt" else (c,)
@@ -278,6 +301,14 @@ def run(ctx, chk):
                                      " (must be unconditional)"))
                 else:
                     detail = f"no rejection guard implies `{want[:300]}` (in loops {loops})"
+                if opaque_guards:
+                    # some guard of the loader could not be modelled: its absence from the match
+                    # is not evidence that the file is accepted
+                    og = opaque_guards[0]
+                    chk.undecided(f"C18.{sid}", f"{title}: rejected unless {want[:260]}",
+                                  f"the guard at {og.loc} ({og.func}) tests a value the analysis "
+                                  f"does not model: {f_show(og.F)[:160]}", path)
+                    continue
             chk.ob(f"C18.{sid}", f"{title}: rejected unless {want[:260]}", hit is not None,
                    detail, hit.loc if hit else path)
             if hit:
